@@ -110,7 +110,9 @@ CLAIMED.update({
              "shared blocks and memory pressure, all of which are step parameters); eviction and the hand-off to the pipe are one "
              "atomic step (two user threads racing on one key are not modelled); a failed load dropping the index entry is not "
              "modelled; compression, value sizes beyond the entry limit and the five memory algorithms are exercised by the "
-             "oracle stream only. Open finding F14 is reported as KNOWN-FINDING."),
+             "oracle stream only. Open findings F14 (remove during an in-flight disk lookup) and F17 (older version after a restart "
+             "when the newest copy's block was reclaimed first) are reported as KNOWN-FINDING; both are outside run_ok and have "
+             "kernel-checked witnesses."),
     "C12": dict(
         text="Per-step theorems on the same model, valid in every state and therefore along every history: what each of insert "
              "(each Location), eviction, lookup, remove, flusher/reclaimer steps and close adds to the list of cache-entry "
@@ -125,14 +127,15 @@ CLAIMED.update({
     "C15": dict(
         text="Theorems: for every reachable state, after close() with flush-on-close under write-on-eviction the resident "
              "version (not in-memory-only, admitted, not young) is on the device, indexed, the pipeline is empty and a lookup "
-             "returns it; it is what the reopened store returns provided recovery's winner for the key is that copy; with "
-             "flush-on-close off nothing is submitted at close; whatever a reopened store answers is the latest value. "
+             "returns it; a reopen whose scan reads the device completely serves exactly it (the winner of recovery is the "
+             "highest sequence among copies and logged tombstones, and nothing on the device is newer: invariants TInv, MInv); "
+             "with flush-on-close off nothing is submitted at close; whatever a reopened store answers is the latest value. "
              "Correspondence and oracle: histories ending in close + reopen (both policies, resident sets up to the buffer limit, "
              "entries updated after their first write, burst close, late remove, repeated close).",
         ref="4/C15", tech="Coq proof (progress of the drain loop + invariant) + extracted-model correspondence + persistence oracle",
-        note="PARTIAL: 'recovery picks the latest copy' is a hypothesis of the reopen theorem (it follows from the scan "
-             "reconstructing each block, C07, and sequences only growing; violated by open finding F10 when reinsertion is "
-             "configured, reported as KNOWN-FINDING); idempotent close and writes after close are checked by the oracle only."),
+        note="PARTIAL: 'the scan reads the device completely' is the hypothesis of the reopen theorem (the scanner's layout is "
+             "C07's; violated by open finding F10 when a reinsertion filter is configured, reported as KNOWN-FINDING); idempotent "
+             "close and writes after close are checked by the oracle only."),
     "C04": dict(
         text="Theorems on the one-key model, where a crash at a reachable state s followed by a reopen is do_recover(s, vis): "
              "(1) for EVERY history and every part vis of the device the scan reaches, a key reads as a miss or a version really "
@@ -179,8 +182,8 @@ CLAIMED.update({
                           "through an event hook + overload oracle",
         note="PARTIAL: 'eventually obtains a block' is proved as 'a reclaim is in progress whenever a writer waits'; that the "
              "reclaimer task itself terminates (device reads/writes complete) is the oracle's observation; completion orders of "
-             "concurrent block writes are exercised, not enumerated; open finding F10 (reinserted entries and recovery) is "
-             "reported as KNOWN-FINDING."),
+             "concurrent block writes are exercised, not enumerated; open finding F10 (reinserted entries and recovery after a "
+             "restart) bears on this property too and is reported by C15's check."),
     "C02": dict(
         text="Proved: the specification (an atomic register per key whose reads may additionally miss), linearizability of "
              "a concurrent history over invocation/response stamps, and the soundness of the history checker - it never "
